@@ -37,6 +37,8 @@ Proof.
     + subst v. split; [reflexivity|]. apply IH; assumption.
 Qed.
 
+Arguments log_cur : simpl never.
+
 (* ---------------------------------------------------------------- invariant *)
 Section TV.
   Context {A : Type}.
@@ -83,7 +85,8 @@ Section TV.
   Lemma tv_inv_init : tv_inv (tv_init_tagged v0 vs).
   Proof.
     exists 0. constructor; cbn; auto; try discriminate; try lia.
-    - intros H; discriminate.
+    - reflexivity.
+    - intros H; contradiction.
     - intros [H|H]; discriminate.
   Qed.
 
@@ -125,20 +128,18 @@ Section TV.
       + (* PWriteQ: queuedValue = v *)
         destruct (Hpw v eq_refl) as [Hfv [Hvv Hpos]].
         exists k. constructor; cbn; auto; try discriminate.
-        * intros _; discriminate.
-        * split; [exact Hfv|]. split; [|exact Hvv].
-          destruct q as [w|]; [destruct Hq as [Hq1 [Hq2 _]]|]; lia.
-        * intros _. left. discriminate.
-        * intros Hcc. specialize (Hc2 Hcc). subst cp. cbn in Hx. discriminate.
+        all: try solve [ intros _; left; discriminate
+                       | intros Hcc; specialize (Hc2 Hcc); subst cp; cbn in Hx; discriminate
+                       | split; [exact Hfv|]; split; [|exact Hvv];
+                         destruct q as [w|]; [destruct Hq as [Hq1 [Hq2 _]]|]; lia ].
       + (* PSetFlag: newValue = true *)
         exists k. constructor; cbn; auto; try discriminate.
-        * intros _. left. apply Hps. reflexivity.
-        * intros _ E. discriminate.
+        all: try solve [ intros _; left; apply Hps; reflexivity | intros _ E; discriminate ].
       + (* PUnlock *)
         assert (Hc : holds_c cp = false) by exact Hx.
         exists k. constructor; cbn; auto; try discriminate.
-        * rewrite Hc. reflexivity.
-        * intros H1 H2. specialize (Hf2 H1 H2). discriminate.
+        all: try solve [ rewrite Hc; reflexivity
+                       | intros H1 H2; specialize (Hf2 H1 H2); discriminate ].
     - (* consumer *)
       destruct cp; cbn in *.
       + (* CIdle *)
@@ -146,50 +147,48 @@ Section TV.
         * (* update(): test the flag *)
           destruct nw eqn:En; cbn.
           -- exists k. constructor; cbn; auto; try discriminate.
-             ++ rewrite Bool.andb_false_r in *. exact Hx.
-             ++ intros H1. destruct (Hf1 H1) as [H|H]; [left; exact H|discriminate].
+             all: try solve [ rewrite Bool.andb_false_r in *; exact Hx
+                            | intros H1; destruct (Hf1 H1) as [H|H]; [left; exact H|discriminate] ].
           -- exists k. constructor; cbn; auto; try discriminate.
-             ++ intros [H|H]; discriminate.
-             ++ apply log_ok_snoc; [exact Hlog|]. cbn. symmetry. exact Hlogc.
-             ++ apply Forall_app. split; [exact Hlogv|]. constructor; [exact Hcur|constructor].
-             ++ apply log_cur_snoc.
+             all: try solve [ intros [H|H]; discriminate
+                            | apply log_ok_snoc; [exact Hlog|]; cbn; symmetry; exact Hlogc
+                            | apply Forall_app; split; [exact Hlogv|]; constructor; [exact Hcur|constructor]
+                            | apply log_cur_snoc ].
         * (* get() / ref() *)
           exists k. constructor; cbn; auto; try discriminate.
-          -- apply log_ok_snoc; [exact Hlog|]. cbn. symmetry. exact Hlogc.
-          -- apply Forall_app. split; [exact Hlogv|]. constructor; [exact Hcur|constructor].
-          -- apply log_cur_snoc.
+          all: try solve [ apply log_ok_snoc; [exact Hlog|]; cbn; symmetry; exact Hlogc
+                         | apply Forall_app; split; [exact Hlogv|]; constructor; [exact Hcur|constructor]
+                         | apply log_cur_snoc ].
       + (* CLock: take the mutex *)
         destruct m as [w|]; [exists k; constructor; fin|].
         assert (Hp : holds_p pp = false) by (destruct (holds_p pp); [discriminate|reflexivity]).
         exists k. constructor; cbn; auto; try discriminate.
-        * rewrite Hp. reflexivity.
-        * rewrite Hp. reflexivity.
-        * intros H1. destruct (Hf1 H1) as [H|H]; [left; exact H|discriminate].
+        all: try solve [ rewrite Hp; reflexivity
+                       | intros H1; destruct (Hf1 H1) as [H|H]; [left; exact H|discriminate] ].
       + (* CInstall *)
         assert (Hnw : nw = true) by (apply Hc1; right; reflexivity).
         destruct q as [v|].
         * destruct Hq as [Hq1 [Hq2 Hq3]].
           exists k. constructor; cbn; auto; try discriminate.
-          -- intros E. subst pp. cbn in Hx. discriminate.
-          -- intros _. right. reflexivity.
-          -- intros H; contradiction.
-          -- intros [H|H]; discriminate.
-          -- rewrite Hlogc. exact Hq2.
+          all: try solve [ intros E; subst pp; cbn in Hx; discriminate
+                         | intros _; right; reflexivity
+                         | intros H; contradiction
+                         | intros [H|H]; discriminate
+                         | rewrite Hlogc; exact Hq2 ].
         * exfalso. destruct (Hf1 Hnw) as [H|H]; [apply H; reflexivity|discriminate].
       + (* CClear *)
         exists k. constructor; cbn; auto; try discriminate.
-        * intros H _. rewrite (Hc2 eq_refl) in H. contradiction.
-        * intros [H|H]; discriminate.
+        all: try solve [ intros H _; rewrite (Hc2 eq_refl) in H; contradiction
+                       | intros [H|H]; discriminate ].
       + (* CUnlock *)
         assert (Hp : holds_p pp = false) by (rewrite Bool.andb_true_r in Hx; exact Hx).
         exists k. constructor; cbn; auto; try discriminate.
-        * rewrite Hp. reflexivity.
-        * rewrite Hp. reflexivity.
-        * intros H1. destruct (Hf1 H1) as [H|H]; [left; exact H|discriminate].
-        * intros [H|H]; discriminate.
-        * apply log_ok_snoc; [exact Hlog|]. cbn. exact Hlogc.
-        * apply Forall_app. split; [exact Hlogv|]. constructor; [exact Hcur|constructor].
-        * apply log_cur_snoc.
+        all: try solve [ rewrite Hp; reflexivity
+                       | intros H1; destruct (Hf1 H1) as [H|H]; [left; exact H|discriminate]
+                       | intros [H|H]; discriminate
+                       | apply log_ok_snoc; [exact Hlog|]; cbn; exact Hlogc
+                       | apply Forall_app; split; [exact Hlogv|]; constructor; [exact Hcur|constructor]
+                       | apply log_cur_snoc ].
   Qed.
 
   Lemma tv_inv_run sched s : tv_inv s -> tv_inv (tv_run s sched).
@@ -200,4 +199,172 @@ Section TV.
 
   Lemma tv_reach sched : tv_inv (tv_run (tv_init_tagged v0 vs) sched).
   Proof. apply tv_inv_run. apply tv_inv_init. Qed.
+
+  (* --- what the consumer sees *)
+  Lemma tv_order_proof sched :
+    let s := tv_run (tv_init_tagged v0 vs) sched in
+    stale s = false /\ log_ok first (log s) /\ Forall (fun e => valid (ev_val e)) (log s).
+  Proof.
+    intro s. destruct (tv_reach sched) as [k H]. fold s in H.
+    split; [apply (r_stale _ _ H)|]. split; [apply (r_log _ _ H)|apply (r_logv _ _ H)].
+  Qed.
+
+  Lemma log_ok_mid (p : V) l1 e l2 : log_ok p (l1 ++ e :: l2) -> snoc_ok (log_cur p l1) e.
+  Proof.
+    revert p; induction l1 as [|h t IH]; intros p H.
+    - cbn in *. destruct e as [[|] v|v]; cbn in *; tauto.
+    - destruct h as [[|] v|v]; cbn in H; destruct H as [H1 H2].
+      + apply (IH v H2).
+      + subst v. apply (IH p H2).
+      + subst v. apply (IH p H2).
+  Qed.
+
+  (* update() returns true exactly when it installed a newer value *)
+  Lemma tv_update_iff_proof sched l1 b v l2 :
+    log (tv_run (tv_init_tagged v0 vs) sched) = l1 ++ EvUpdate b v :: l2 ->
+    (b = true <-> fst (log_cur first l1) < fst v) /\ (b = false -> v = log_cur first l1).
+  Proof.
+    intro E. destruct (tv_order_proof sched) as [_ [Hl _]]. rewrite E in Hl.
+    apply log_ok_mid in Hl. destruct b; cbn in Hl.
+    - split; [tauto|discriminate].
+    - subst v. split; [|reflexivity]. split; [discriminate|lia].
+  Qed.
+
+  Lemma length_tagN {B} j (l : list B) : length (tagN j l) = length l.
+  Proof. revert j; induction l; intro j; cbn; auto. Qed.
+
+  (* an update() that runs while the producer is idle (between assignments, or finished)
+     obtains the latest assigned value *)
+  Lemma tv_quiescent_proof sched :
+    let s := tv_run (tv_init_tagged v0 vs) sched in
+    p_pc s = PIdle -> c_pc s = CIdle ->
+    exists v n, (n = 1 \/ n = 5)%nat /\
+      fst v = N.of_nat (length vs - length (p_rem s)) /\ valid v /\
+      let s' := tv_run s (repeat (ACons DoUpdate) n) in
+      c_pc s' = CIdle /\ p_pc s' = PIdle /\ p_rem s' = p_rem s /\ tv_current (obj s') = v /\
+      log s' = log s ++ [EvUpdate (Nat.eqb n 5) v].
+  Proof.
+    intro s. destruct (tv_reach sched) as [k H]. fold s in H. clearbody s. intros Hp Hc.
+    destruct s as [o m pp pr cp lg st]. destruct o as [nw q cur].
+    destruct H as [Hrem Hk Hm Hx Hpw Hps Hq Hcur Hf1 Hf2 Hc1 Hc2 Hst Hlog Hlogv Hlogc]. cbn in *.
+    subst pp cp. cbn in *. subst m.
+    assert (Hlen : N.of_nat (length vs - length pr) = k).
+    { rewrite Hrem, length_tagN, skipn_length. lia. }
+    destruct q as [v|].
+    - destruct Hq as [Hq1 [Hq2 Hq3]].
+      assert (Hnw : nw = true).
+      { destruct nw; [reflexivity|]. assert (E : @PIdle V = PSetFlag) by (apply Hf2; [discriminate|reflexivity]). discriminate. }
+      subst nw. exists v, 5%nat. split; [right; reflexivity|]. split; [congruence|]. split; [exact Hq3|].
+      cbn. repeat split; reflexivity.
+    - assert (Hnw : nw = false).
+      { destruct nw; [|reflexivity]. destruct (Hf1 eq_refl) as [E|E]; [contradiction|discriminate]. }
+      subst nw. exists cur, 1%nat. split; [left; reflexivity|]. split; [congruence|]. split; [exact Hcur|].
+      cbn. repeat split; reflexivity.
+  Qed.
+
+  Lemma nth_error_last (x : A) l : nth_error (x :: l) (length l) = Some (last l x).
+  Proof.
+    revert x; induction l as [|y t IH]; intro x; [reflexivity|].
+    cbn [length nth_error]. rewrite IH. destruct t as [|z t]; [reflexivity|]. cbn.
+    f_equal. clear. revert z; induction t as [|w t IH]; intro z; [reflexivity|]. cbn in *. destruct t; auto.
+  Qed.
+
+  (* once the producer has stopped, the next update() leaves the last assigned value *)
+  Lemma tv_last_proof sched :
+    let s := tv_run (tv_init_tagged v0 vs) sched in
+    p_rem s = [] -> p_pc s = PIdle -> c_pc s = CIdle ->
+    exists n, (n = 1 \/ n = 5)%nat /\
+      let s' := tv_run s (repeat (ACons DoUpdate) n) in
+      c_pc s' = CIdle /\ tv_current (obj s') = (N.of_nat (length vs), last vs v0) /\
+      log s' = log s ++ [EvUpdate (Nat.eqb n 5) (N.of_nat (length vs), last vs v0)].
+  Proof.
+    intros s Hr Hp Hc. destruct (tv_quiescent_proof sched Hp Hc) as [v [n [Hn [Hf [Hv H]]]]].
+    fold s in Hf, H. rewrite Hr in Hf. cbn [length] in Hf. rewrite Nat.sub_0_r in Hf.
+    assert (E : v = (N.of_nat (length vs), last vs v0)).
+    { destruct v as [i x]. cbn in Hf. subst i. unfold tv_valid in Hv. cbn [fst snd] in Hv.
+      rewrite Nnat.Nat2N.id, nth_error_last in Hv. inversion Hv. reflexivity. }
+    subst v. exists n. split; [exact Hn|]. cbn zeta in H. destruct H as [H1 [_ [_ [H4 H5]]]]. auto.
+  Qed.
 End TV.
+
+(* the tags are ghost state: forgetting them commutes with every step *)
+Lemma tv_map_step {A B} (f : A -> B) (s : tv_sys A) a :
+  tv_step (map_sys f s) a = map_sys f (tv_step s a).
+Proof.
+  destruct s as [o m pp pr cp lg st]. destruct o as [nw q cur].
+  destruct a as [|c].
+  - destruct pp; [destruct pr; [|destruct m]| | |]; reflexivity.
+  - destruct cp; [destruct c; [destruct nw|]|destruct m|destruct q| |];
+      unfold map_sys; cbn; rewrite ?map_app; reflexivity.
+Qed.
+
+Lemma tv_map_run {A B} (f : A -> B) sched (s : tv_sys A) :
+  tv_run (map_sys f s) sched = map_sys f (tv_run s sched).
+Proof.
+  revert s; induction sched as [|a l IH]; intro s; cbn; [reflexivity|].
+  rewrite tv_map_step. apply IH.
+Qed.
+
+Lemma map_snd_tagN {A} k (l : list A) : map snd (tagN k l) = l.
+Proof. revert k; induction l as [|x t IH]; intro k; cbn; [reflexivity|]. rewrite IH. reflexivity. Qed.
+
+Lemma tv_erase_proof {A} (v0 : A) vs sched :
+  tv_run (tv_init v0 vs) sched = map_sys snd (tv_run (tv_init_tagged v0 vs) sched).
+Proof.
+  rewrite <- tv_map_run. unfold tv_init_tagged, tv_init, map_sys, map_tval. cbn.
+  rewrite map_snd_tagN. reflexivity.
+Qed.
+
+(* ---------------------------- acceptance function for recorded consumer histories *)
+Lemma eqv_eq a b : eqv a b = true <-> a = b.
+Proof.
+  unfold eqv. destruct a as [a1 a2], b as [b1 b2]. cbn. rewrite andb_true_iff, !N.eqb_eq.
+  split; [intros [H1 H2]; congruence|intro H; inversion H; auto].
+Qed.
+
+Lemma drop_to_tagN v : forall l j r,
+  drop_to v (tagN j l) = Some r ->
+  j <= fst v /\ In v (tagN j l) /\ exists l', r = tagN (N.succ (fst v)) l'.
+Proof.
+  induction l as [|x t IH]; intros j r H; cbn in H; [discriminate|].
+  destruct (eqv (j, x) v) eqn:E.
+  - apply eqv_eq in E. subst v. inversion H; subst r. cbn. split; [lia|]. split; [left; reflexivity|eauto].
+  - destruct (IH _ _ H) as [H1 [H2 H3]]. split; [lia|]. split; [right; exact H2|exact H3].
+Qed.
+
+Fixpoint evs_of (l : list hev) : list (event tagv) :=
+  match l with [] => [] | HEv e :: t => e :: evs_of t | HQuiet _ :: t => evs_of t end.
+(* every quiescent point carries the tag of the value the consumer holds there *)
+Fixpoint quiet_ok (prev : tagv) (l : list hev) : Prop :=
+  match l with
+  | [] => True
+  | HEv e :: t => quiet_ok (ev_val e) t
+  | HQuiet i :: t => fst prev = i /\ quiet_ok prev t
+  end.
+
+(* soundness: an accepted history is coherent in the sense of log_ok (the statement of
+   tval_order), and at every quiescent point the consumer holds the value just assigned *)
+Lemma tv_acc_sound_proof l : forall j r prev rest',
+  fst prev < j -> tv_acc (tagN j r) prev l = Some rest' ->
+  log_ok prev (evs_of l) /\ quiet_ok prev l.
+Proof.
+  induction l as [|h t IH]; intros j r prev rest' Hj H; [cbn; auto|].
+  destruct h as [[[|] v|v]|i]; cbn in H |- *.
+  - destruct (drop_to v (tagN j r)) as [r1|] eqn:D; [|discriminate].
+    destruct (drop_to_tagN _ _ _ _ D) as [H1 [_ [l' Hr]]]. subst r1.
+    destruct (IH _ _ _ _ (N.lt_succ_diag_r (fst v)) H) as [A1 A2].
+    split; [split; [lia|exact A1]|exact A2].
+  - destruct (eqv v prev) eqn:E; [|discriminate]. apply eqv_eq in E. subst v.
+    destruct (IH _ _ _ _ Hj H) as [A1 A2]. auto.
+  - destruct (eqv v prev) eqn:E; [|discriminate]. apply eqv_eq in E. subst v.
+    destruct (IH _ _ _ _ Hj H) as [A1 A2]. auto.
+  - destruct (N.eqb (fst prev) i) eqn:E; [|discriminate]. apply N.eqb_eq in E.
+    destruct (IH _ _ _ _ Hj H) as [A1 A2]. auto.
+Qed.
+
+Lemma tv_accept_sound_proof v0 vs l :
+  tv_accept v0 vs l = true -> log_ok (0, v0) (evs_of l) /\ quiet_ok (0, v0) l.
+Proof.
+  unfold tv_accept. destruct (tv_acc (tagN 1 vs) (0, v0) l) as [[|]|] eqn:E; try discriminate.
+  intros _. apply (tv_acc_sound_proof l 1 vs (0, v0) [] ); [cbn; lia|exact E].
+Qed.
